@@ -405,17 +405,25 @@ def _r1_rest(ctx):
     # _max helper really is max
     mx = prog.functions.get("pylife.stress.rainflow.extension:_max")
     if mx is not None:
-        r = [s for s in mx.node.body if isinstance(s, ast.Return)]
+        r = [s for s in walk_stmts(mx.node.body) if isinstance(s, ast.Return)]
         ok = False
-        if r and isinstance(r[0].value, ast.IfExp):
-            e = r[0].value
-            a, b = mx.params[0], mx.params[1]
-            t = e.test
-            if isinstance(t, ast.Compare) and len(t.ops) == 1 and isinstance(t.left, ast.Name) and \
-                    isinstance(t.comparators[0], ast.Name) and isinstance(e.body, ast.Name) and isinstance(e.orelse, ast.Name):
-                big, small = (t.left.id, t.comparators[0].id) if isinstance(t.ops[0], (ast.Gt, ast.GtE)) else \
-                    (t.comparators[0].id, t.left.id) if isinstance(t.ops[0], (ast.Lt, ast.LtE)) else (None, None)
-                ok = big is not None and e.body.id == big and e.orelse.id == small and {big, small} == {a, b}
+        a, b = mx.params[0], mx.params[1]
+        body = mx.node.body
+        # one decision, in any of its spellings: `return X if T else Y`, `if T: return X` + `return Y`, or the builtin
+        t = x_ = y_ = None
+        if len(body) == 1 and isinstance(body[0], ast.Return) and isinstance(body[0].value, ast.IfExp):
+            t, x_, y_ = body[0].value.test, body[0].value.body, body[0].value.orelse
+        elif len(body) == 2 and isinstance(body[0], ast.If) and not body[0].orelse and len(body[0].body) == 1 and \
+                isinstance(body[0].body[0], ast.Return) and isinstance(body[1], ast.Return):
+            t, x_, y_ = body[0].test, body[0].body[0].value, body[1].value
+        elif len(body) == 1 and isinstance(body[0], ast.Return) and isinstance(body[0].value, ast.Call) and \
+                call_name(body[0].value) in ("max", "fmax") and sorted(norm_text(q) for q in body[0].value.args) == sorted([a, b]):
+            ok = True
+        if t is not None and isinstance(t, ast.Compare) and len(t.ops) == 1 and isinstance(t.left, ast.Name) and \
+                isinstance(t.comparators[0], ast.Name) and isinstance(x_, ast.Name) and isinstance(y_, ast.Name):
+            big, small = (t.left.id, t.comparators[0].id) if isinstance(t.ops[0], (ast.Gt, ast.GtE)) else \
+                (t.comparators[0].id, t.left.id) if isinstance(t.ops[0], (ast.Lt, ast.LtE)) else (None, None)
+            ok = big is not None and x_.id == big and y_.id == small and {big, small} == {a, b}
         if ok:
             ctx.holds(mx, r[0], "_max returns the larger argument (symmetric in its arguments)")
         else:
